@@ -133,7 +133,9 @@ def check(ctx):
                else f"indicator matrix built from {[ir.show(o, maxdepth=2) for o in (order or [])]}")
         # columns of get_dummies are the sorted distinct keys; the key for several aggregates is the '_'-join in aggregate order
         joins = [x for x in ir.walk(dm) if x[0] == "call" and x[1][0] == "attr" and x[1][2] == "agg" and x[2] and x[2][0] == ("attr", ("const", "_"), "join")]
-        okj = bool(joins) and all(j[1][1][0] == "sub" and j[1][1][2] == ("param", "aggregate") for j in joins)
+        # with the columns re-ordered by the keys (col-order below) any join over exactly the aggregate keys names the groups
+        okj = bool(joins) and all(j[1][1][0] == "sub" and (j[1][1][2] == ("param", "aggregate") or (
+            j[1][1][2][0] == "sub" and j[1][1][2][1] == ("param", "aggregate") and j[1][1][2][2][0] == "slice")) for j in joins)
         ctx.ob("C02.R3.bootstrap-cols", f"{f.qualname}|contest columns keyed by the aggregate list", okj, f.where(),
                "multi-key groups are the '_'-join of the keys in aggregate order" if okj
                else "group key of the indicator matrix is not the join of the aggregate keys in order")
